@@ -149,6 +149,62 @@ fn is_len_call(e: &syn::Expr) -> bool {
     matches!(e, syn::Expr::MethodCall(m) if m.method == "len" && m.args.is_empty())
 }
 
+impl<'a> Rules<'a> {
+    fn rewrite_map_collect(&mut self, e: &syn::Expr) -> Option<syn::Expr> {
+        let syn::Expr::MethodCall(col) = e else { return None };
+        if col.method != "collect" { return None; }
+        let syn::Expr::MethodCall(map) = &*col.receiver else { return None };
+        if map.method != "map" || map.args.len() != 1 { return None; }
+        let syn::Expr::Closure(cl) = &map.args[0] else { return None };
+        if cl.inputs.len() != 1 { return None; }
+        // receiver: A.iter()  or  A.iter().zip(B)
+        let (a_recv, b_recv): (syn::Expr, Option<syn::Expr>) = match &*map.receiver {
+            syn::Expr::MethodCall(z) if z.method == "zip" && z.args.len() == 1 => {
+                let syn::Expr::MethodCall(it) = &*z.receiver else { return None };
+                if it.method != "iter" { return None; }
+                let b = match &z.args[0] {
+                    syn::Expr::MethodCall(bi) if bi.method == "iter" && bi.args.is_empty() => (*bi.receiver).clone(),
+                    syn::Expr::Reference(r) => (*r.expr).clone(),
+                    other @ (syn::Expr::Path(_) | syn::Expr::Field(_)) => other.clone(),
+                    _ => return None,
+                };
+                ((*it.receiver).clone(), Some(b))
+            }
+            syn::Expr::MethodCall(it) if it.method == "iter" && it.args.is_empty() => ((*it.receiver).clone(), None),
+            _ => return None,
+        };
+        let k = self.ctx.fresh();
+        let nn = syn::Ident::new(&format!("vx_n{}", k), proc_macro2::Span::call_site());
+        let ii = syn::Ident::new(&format!("vx_i{}", k), proc_macro2::Span::call_site());
+        let out = syn::Ident::new(&format!("vx_out{}", k), proc_macro2::Span::call_site());
+        let body = &cl.body;
+        let pat = &cl.inputs[0];
+        let pat = match pat { syn::Pat::Type(pt) => (*pt.pat).clone(), p => p.clone() };
+        let binds: Vec<syn::Stmt> = match (&b_recv, &pat) {
+            (Some(b), syn::Pat::Tuple(tp)) if tp.elems.len() == 2 => {
+                let p0 = &tp.elems[0];
+                let p1 = &tp.elems[1];
+                vec![syn::parse_quote!(let #p0 = &#a_recv[#ii];), syn::parse_quote!(let #p1 = &#b[#ii];)]
+            }
+            (None, p) => vec![syn::parse_quote!(let #p = &#a_recv[#ii];)],
+            _ => return None,
+        };
+        let len_stmt: syn::Stmt = match &b_recv {
+            Some(b) => syn::parse_quote!(let #nn = if #a_recv.len() < #b.len() { #a_recv.len() } else { #b.len() };),
+            None => syn::parse_quote!(let #nn = #a_recv.len();),
+        };
+        Some(syn::parse_quote!({
+            let mut #out = Vec::new();
+            #len_stmt
+            for #ii in 0..#nn {
+                #(#binds)*
+                #out.push(#body);
+            }
+            #out
+        }))
+    }
+}
+
 impl<'a> VisitMut for Rules<'a> {
     fn visit_type_mut(&mut self, t: &mut syn::Type) {
         syn::visit_mut::visit_type_mut(self, t);
@@ -291,11 +347,40 @@ impl<'a> VisitMut for Rules<'a> {
         syn::visit_mut::visit_block_mut(self, b);
     }
 
+    fn visit_generics_mut(&mut self, g: &mut syn::Generics) {
+        // R23: trait bounds other than Copy / Clone / Sized are dropped (serde, Display, ... have no meaning for the verifier)
+        if self.ctx.on("R23") {
+            let keep = |b: &syn::TypeParamBound| match b {
+                syn::TypeParamBound::Trait(t) => t.path.segments.last().map(|s| { let n = s.ident.to_string(); n == "Copy" || n == "Clone" || n == "Sized" }).unwrap_or(false),
+                _ => true,
+            };
+            for p in g.params.iter_mut() {
+                if let syn::GenericParam::Type(tp) = p {
+                    let kept: Vec<syn::TypeParamBound> = tp.bounds.iter().filter(|b| keep(b)).cloned().collect();
+                    if kept.len() != tp.bounds.len() { self.ctx.used("R23"); }
+                    tp.bounds = kept.into_iter().collect();
+                    if tp.bounds.is_empty() { tp.colon_token = None; }
+                }
+            }
+            g.where_clause = None;
+        }
+        syn::visit_mut::visit_generics_mut(self, g);
+    }
+
     fn visit_pat_mut(&mut self, p: &mut syn::Pat) {
         syn::visit_mut::visit_pat_mut(self, p);
     }
 
     fn visit_expr_mut(&mut self, e: &mut syn::Expr) {
+        // R22: `A.iter()[.zip(B)].map(|pat| BODY).collect()`  ->  index loop pushing BODY into a fresh Vec
+        if self.ctx.on("R22") {
+            if let Some(new) = self.rewrite_map_collect(e) {
+                *e = new;
+                self.ctx.used("R22");
+                syn::visit_mut::visit_expr_mut(self, e);
+                return;
+            }
+        }
         // R11 / R4 act on loops before descending
         if let syn::Expr::ForLoop(fl) = e {
             if self.ctx.on("R13") {
@@ -376,6 +461,33 @@ impl<'a> VisitMut for Rules<'a> {
                         syn::visit_mut::visit_expr_mut(self, e);
                         return;
                     }
+                }
+            }
+            if self.ctx.on("R26") {
+                // R26: `for x in V` over a (reference to a) Vec listed in opts.vec_loops -> index loop `let x = &V[i]`
+                let rtxt = norm(&fl.expr.to_token_stream().to_string());
+                let listed = self.ctx.opts["vec_loops"].as_array().map(|a| a.iter().any(|v| v.as_str().map(norm).as_deref() == Some(&rtxt))).unwrap_or(false);
+                if listed {
+                    let k = self.ctx.fresh();
+                    let nn = syn::Ident::new(&format!("vx_n{}", k), proc_macro2::Span::call_site());
+                    let ii = syn::Ident::new(&format!("vx_i{}", k), proc_macro2::Span::call_site());
+                    let vv = syn::Ident::new(&format!("vx_v{}", k), proc_macro2::Span::call_site());
+                    let recv = (*fl.expr).clone();
+                    let pat = fl.pat.clone();
+                    let stmts = &fl.body.stmts;
+                    let label = fl.label.clone();
+                    let new: syn::Expr = syn::parse_quote!({
+                        let #vv = #recv;
+                        let #nn = #vv.len();
+                        #label for #ii in 0..#nn {
+                            let #pat = &#vv[#ii];
+                            #(#stmts)*
+                        }
+                    });
+                    *e = new;
+                    self.ctx.used("R26");
+                    syn::visit_mut::visit_expr_mut(self, e);
+                    return;
                 }
             }
             if self.ctx.on("R4") {
